@@ -12,6 +12,7 @@ import (
 	"go/ast"
 	"go/parser"
 	"go/token"
+	"log"
 	"os"
 	"runtime/debug"
 	"strings"
@@ -76,6 +77,10 @@ type Result struct {
 	Runs []Run  `json:"runs"`
 }
 
+type stderrProxy struct{}
+
+func (stderrProxy) Write(p []byte) (int, error) { return simos.Stderr.Write(p) }
+
 func sum(b []byte) FileSum {
 	h := sha256.Sum256(b)
 	return FileSum{Len: len(b), SHA: hex.EncodeToString(h[:8])}
@@ -85,6 +90,8 @@ func sum(b []byte) FileSum {
 func RunOnce(mainFn func(), c *Case) (r Run) {
 	files := c.Files
 	w := simos.Reset(append([]string{"pigeon"}, c.Args...), c.Stdin, files, c.Dirs, c.Faults)
+	// whatever goes through the standard logger belongs to the simulated stderr
+	log.SetOutput(stderrProxy{})
 	simmap.Configure(c.MapMode, c.MapSeed, true)
 	func() {
 		defer func() {
